@@ -78,6 +78,12 @@ class Check:
         self.ex = None
         self.mir_time = 0.0
         self.known = load_known(pid)
+        cexdir = os.path.join(VERIF, 'evidence', 'cex')
+        if os.path.isdir(cexdir):
+            for fn_ in os.listdir(cexdir):
+                if fn_.startswith(pid + '-'):
+                    try: os.unlink(os.path.join(cexdir, fn_))
+                    except OSError: pass
 
     # ---- setup
     def load(self, models, loop_bound=64):
@@ -168,7 +174,7 @@ class Check:
         """re-decide with a second solver from the SMT-LIB2 dump; any disagreement or (error => inconclusive"""
         os.makedirs(self.smt_dir, exist_ok=True)
         smt = '(set-logic ALL)\n' + s.to_smt2()
-        fn = os.path.join(self.smt_dir, f'{len(self.obligations):05d}.smt2')
+        fn = os.path.join(self.smt_dir, f'{os.getpid()}-{len(self.obligations):05d}.smt2')
         with open(fn, 'w') as f: f.write(smt)
         has_q = 'forall' in smt or 'exists' in smt
         tool = ['/usr/bin/z3', '-T:120', fn] if has_q else ['cvc5', '--lang', 'smt2', '--tlimit=120000', fn]
@@ -313,6 +319,15 @@ def main_wrapper(pid, fn):
     ap.add_argument('--tier', default=os.environ.get('VERIF_TIER', 'quick'))
     ap.add_argument('--replay', default=None)
     a = ap.parse_args(sys.argv[2:] if len(sys.argv) > 1 and not sys.argv[1].startswith('-') else sys.argv[1:])
+    if a.replay:
+        # re-run a stored counterexample / witness on the real compiled code and show what it does
+        try:
+            d = json.load(open(a.replay))
+            case = d.get('case', d)
+            print(json.dumps({'property': d.get('property', pid), 'what': d.get('what'), 'case': case, 'native_result': replay([case])[0]}, indent=1))
+            sys.exit(0)
+        except Inconclusive as e:
+            print(f'INCONCLUSIVE property={pid} {e}'); sys.exit(2)
     try:
         rc = fn(a.tier, a.replay)
     except Inconclusive as e:
